@@ -211,6 +211,9 @@ K("normalized_distance_total", ["C20", "C11"], DSF,
 K("manhattan_self_zero_symmetric", ["C11"], DSF,
   "Manhattan built_distance(p,p) = 0 and is argument-symmetric bit-for-bit (real code)", "dim 2, all finite f32",
   site="Manhattan::built_distance", timeout=600)
+K("built_distance_is_the_kernel_value", ["C11", "C02"], DSF,
+  "DotProduct::built_distance = -dot_product(p, q) (so the reported score is +dot) and Euclidean::built_distance = euclidean_distance(p, q), whatever the leaf headers contain",
+  "all header values, dim 2, kernels as uninterpreted functions", site="DotProduct/Euclidean::built_distance", timeout=300)
 # cosine_range (Cosine::built_distance in [0,1]): one f32 product and one division of symbolic floats -- no CBMC verdict in 300 s; not registered.
 
 _SEARCH_BOUNDS = "forests: 1 tree from {bucket; split(bucket,bucket); split(item,bucket)} + (split(bucket,item) with a second single-bucket tree); thorough adds the other depth-1 shapes and one depth-2 shape, <= 3 (thorough 4) items over a 16-id universe; count 0..=6; candidate filter absent or any 16-bit set; per-item distances = uninterpreted f32 function of the id (any values incl. NaN/inf/ties); per-split margins arbitrary f32"
